@@ -95,6 +95,20 @@ def synthetic_glyf_font(rng, nglyphs=8, max_depth=3, upem=1000):
             depth[n] = d
         elif kind < 0.55 and i:
             depth[n] = 0  # empty glyph
+        elif kind < 0.67 and i:
+            # hairline: a non-empty outline that is flat in exactly one dimension (zero-height or zero-width box);
+            # placed so that, used as a component, it tends to stick out of the other components' boxes
+            horizontal = rng.random() < 0.5
+            fixed = rng.choice([-700, -350, 950, 1400])
+            lo, hi = sorted(rng.sample(range(-900, 1600), 2))
+            mid = (lo + hi) // 2
+            pts = [(lo, fixed), (mid, fixed), (hi, fixed)] if horizontal else [(fixed, lo), (fixed, mid), (fixed, hi)]
+            pen.moveTo(pts[0])
+            pen.lineTo(pts[1])
+            pen.lineTo(pts[2])
+            pen.closePath()
+            depth[n] = 0
+            simple.append(n)
         else:
             for _c in range(rng.randint(1, 3)):
                 npts = rng.randint(3, 7)
